@@ -19,7 +19,8 @@ RULE = ("Targets: the four service registries (confirmed requests, complex acks,
         "worked examples of Annex F (golden/annex_f.json) encode to exactly the published octets and decode to the published "
         "parameters. Non-trivial: value with an optional present and one absent, or a non-empty list, or a nested constructed "
         "element, or an Any holding > 1 tag. Distinct by octets."
-        " Also: every value is encoded a second time from the same object; BACnetNameValue carries date-time pairs.")
+        " Also: every value is encoded a second time from the same object; BACnetNameValue carries date-time pairs."
+        " One reduced copy of a generated shard runs with the library's debug tracing switched on (label tracing-on).")
 ASSUMPTIONS = [
     "golden/schema.json is a snapshot of the pinned tree's tables with the audited corrections listed in DESIGN.md; for un-audited base types it is a regression oracle",
     "values the constructors refuse are not generated; enumerated leaves compare by name when the number has one",
